@@ -263,27 +263,13 @@ Qed.
 Lemma unit_us64_pos : forall u k, unit_us64 u = Some k -> 0 < k.
 Proof. intros u k H. destruct u; simpl in H; try discriminate; injection H as <-; lia. Qed.
 
-Lemma cftime_ref_consistent : forall r p, impl_parse r = Some p -> d2n_consistent r = true ->
-  cftime_ref_us r p = ref_us p.
-Proof.
-  intros r p E C. unfold cftime_ref_us. destruct (sp_hour_only (r_sp r)) eqn:HO; [|reflexivity].
-  unfold d2n_consistent in C. rewrite HO in C. cbn [negb orb] in C.
-  apply andb_true_iff in C as [C1 C2]. apply Z.eqb_eq in C1.
-  unfold impl_parse in E.
-  destruct (r_sp r) eqn:S; try discriminate HO; cbn [sp_hasH sp_hasM sp_hasS sp_hasTz sp_accepted] in *;
-    match type of E with (if ?c then _ else _) = _ => destruct c; [|discriminate] end;
-    injection E as <-; unfold ref_us; rewrite C1;
-    try (cbn [negb orb] in C2; rewrite orb_false_r in C2; apply Z.eqb_eq in C2; rewrite C2); lia.
-Qed.
-
 Lemma date2num_roundtrip : forall u r vals out,
-  impl_cf_std u r vals = Some out -> d2n_consistent r = true -> impl_date2num u r out = Some vals.
+  impl_cf_std u r vals = Some out -> impl_date2num u r out = Some vals.
 Proof.
-  intros u r vals out H C. unfold impl_cf_std in H. unfold impl_date2num.
+  intros u r vals out H. unfold impl_cf_std in H. unfold impl_date2num.
   destruct (impl_parse r) as [p|] eqn:E; [|discriminate].
   destruct (unit_us64 u) as [k|] eqn:K; [|discriminate].
   pose proof (unit_us64_pos _ _ K) as Kp.
-  rewrite (cftime_ref_consistent _ _ E C).
   unfold decode_all in H. rewrite map_map in H.
   refine (all_some_map_sound (fun n => dt_of_us (ref_us p + n * k)) _ _ vals out H).
   intros n l Hl. rewrite (dt_of_us_sound _ _ Hl).
@@ -320,20 +306,17 @@ Proof.
     f_equal. rewrite map_map. reflexivity.
 Qed.
 
-Lemma tmpseconds_short : forall t, valid_step t = true -> t < 1000000 -> impl_tmpseconds t = sec_of_hhmmss t.
-Proof.
-  intros t V L. unfold impl_tmpseconds. assert (E : (t <? 1000000) = true) by (apply Z.ltb_lt; lia).
-  rewrite E. unfold sec_of_hhmmss, hhmmss_h, hhmmss_m, hhmmss_s. lia.
-Qed.
+Lemma tmpseconds_valid : forall t, valid_step t = true -> impl_tmpseconds t = sec_of_hhmmss t.
+Proof. intros t V. unfold impl_tmpseconds. apply valid_step_sec. exact V. Qed.
 
 Lemma synth_attrs_matches : forall sdate stime tstep n,
-  valid_sdate sdate stime tstep = true -> tstep < 1000000 -> (1 <= n)%nat ->
+  valid_sdate sdate stime tstep = true -> (1 <= n)%nat ->
   exists ts, impl_synth_attrs sdate stime tstep n = Some ts
              /\ impl_decode_seconds ts = impl_sdate sdate stime tstep n false.
 Proof.
-  intros sdate stime tstep n V L Hn. rewrite (sdate_correct _ _ _ n false V).
+  intros sdate stime tstep n V Hn. rewrite (sdate_correct _ _ _ n false V).
   unfold valid_sdate in V. apply andb_true_iff in V as [V1 V2].
-  unfold impl_synth_attrs. rewrite (strptime_valid _ _ V1), (tmpseconds_short _ V2 L).
+  unfold impl_synth_attrs. rewrite (strptime_valid _ _ V1), (tmpseconds_valid _ V2).
   eexists; split; [reflexivity|].
   rewrite decode_seconds_eq. f_equal. rewrite Nat.max_r by lia. rewrite map_map.
   unfold spec_sdate_us, spec_flag_us. cbn [fst snd]. apply map_ext. intros i.
@@ -444,4 +427,12 @@ Proof.
     unfold fixed_ref_us. rewrite Q. apply fixed_row.
     unfold fixed_ref_us in Ok. rewrite <- Q. apply Ok. apply in_map_iff. exists n. tauto. }
   rewrite PR. reflexivity.
+Qed.
+
+(* the last edge of the synthesised time_bounds is the last instant plus the step *)
+Lemma synth_edges_valid : forall tstep ts, valid_step tstep = true -> ts <> [] ->
+  impl_synth_edges tstep ts = ts ++ [lastZ ts + sec_of_hhmmss tstep].
+Proof.
+  intros tstep ts V NE. unfold impl_synth_edges. rewrite (tmpseconds_valid _ V).
+  destruct ts; [congruence|reflexivity].
 Qed.
